@@ -1,8 +1,8 @@
 (* C12 — retries are bounded and every run terminates (Layer A part).
    Termination of download_file for every response sequence is the totality of
    the structurally recursive [download_file] itself (no fuel). *)
-From AM.Model Require Import Base Download.
-From AM.Lemmas Require Import DownloadLemmas.
+From AM.Model Require Import Base Download ReleaseCheck.
+From AM.Lemmas Require Import DownloadLemmas ReleaseLemmas.
 Open Scope string_scope.
 Open Scope list_scope.
 
@@ -30,3 +30,16 @@ Theorem transient_absorbed :
     out_variant (r_out (download_file f u fs)) = Some 0.
 Proof. exact transient_absorbed_lemma. Qed.
 Print Assumptions transient_absorbed.
+
+(* release files are fetched in at most max(1, release_files_retries) rounds, and the
+   loop stops at the first round whose files are consistent *)
+Theorem release_rounds_bounded :
+  forall retries valid k ok,
+  release_rounds retries valid = (k, ok) ->
+  1 <= k /\ k <= Nat.max 1 retries /\
+  (ok = true <-> exists j, j < Nat.max 1 retries /\ valid j = true).
+Proof.
+  intros retries valid k ok H.
+  destruct (release_loop_bounded_lemma retries valid k ok H) as [H1 [H2 [H3 _]]]. auto.
+Qed.
+Print Assumptions release_rounds_bounded.
